@@ -124,3 +124,11 @@ Definition chk_verify (mode_c : N) (rs : list rmember) (draws : list (list int))
                  else flag (forallb (fun r => match r_ops r with [] => true | _ => false end) rs
                             && match wops with [] => true | _ => false end) 64 in
   (c_res + c_sc + c_ops + c_w + c_stage)%N.
+
+(** chunking of a batch (Model/VerifyTop.v [chunks_of] with [MAX_BATCH]): the sizes of the chunks the
+    implementation went through (one weight transcript per chunk, one absorbed value per member), for an
+    accepted batch of [n] members.  Result code 256 = they differ. *)
+Fixpoint nat_list_eqb (a b : list nat) : bool :=
+  match a, b with [] , [] => true | x :: a', y :: b' => Nat.eqb x y && nat_list_eqb a' b' | _, _ => false end.
+Definition chk_chunks (n : nat) (obs : list nat) : N :=
+  flag (nat_list_eqb (map (@length unit) (chunks_of n MAX_BATCH (repeat tt n))) obs) 256.
